@@ -1,4 +1,5 @@
 import AtreeProofs.Trans.MapElems
+import AtreeProofs.Trans.MapElemsOn
 import AtreeProofs.Map.Search
 /-
   The GENERATED `hkeyElements.getElement` / `hkeyElements.Get` (`AtreeModel/Gen/TransMapElems.lean`) against the model's
@@ -51,8 +52,9 @@ theorem mel_getElement_loop (e : HkeyElems α) (hok : mel_HOk e) (hk : Nat) (hhk
     · simp only [c, decide_false, if_false, Bool.false_eq_true]
       exact ⟨_, _, rfl⟩
 
-/-- `hkeyElements.getElement` = the model's search: hash-level error, key-not-found, or the element at the index found -/
-theorem hkeyElements_getElement_eq_model (hE : EnvA o cfg k v env) (e : HkeyElems α) (hok : mel_HOk e) (level hk : Nat)
+/-- (relativised environment `EnvAOn`) `hkeyElements.getElement` = the model's search: hash-level error, key-not-found, or the element at the index found -/
+theorem hkeyElements_getElement_eq_model_on {Pg Ps Pr : MElemF α → Nat → Ctx → Prop}
+    (hE : EnvAOn o cfg k v env Pg Ps Pr) (e : HkeyElems α) (hok : mel_HOk e) (level hk : Nat)
     (hl : level < 2^64) (hL : cfg.L < 2^64) (hhk : hk < 2^64) (w : SW) :
     hkeyElements_getElement env (mel_cH e) (u64 level) (u64 hk) w =
       if level ≥ cfg.L then some (none, 0, some .hashLevel)
@@ -80,13 +82,25 @@ theorem hkeyElements_getElement_eq_model (hE : EnvA o cfg k v env) (e : HkeyElem
       · rw [hx]; rfl
       · rw [hx]; rfl
 
-/-- `hkeyElements.Get` = `HkeyElems.get` (for every well-formed digest table; never panics) -/
-theorem hkeyElements_Get_eq_model (hE : EnvA o cfg k v env) (e : HkeyElems α) (hok : mel_HOk e) (level : Nat) (c : Ctx)
-    (hl : level < 2^64) (hL : cfg.L < 2^64) (hd : k.dig level < 2^64) :
+/-- `hkeyElements.getElement` = the model's search: hash-level error, key-not-found, or the element at the index found -/
+theorem hkeyElements_getElement_eq_model (hE : EnvA o cfg k v env) (e : HkeyElems α) (hok : mel_HOk e) (level hk : Nat)
+    (hl : level < 2^64) (hL : cfg.L < 2^64) (hhk : hk < 2^64) (w : SW) :
+    hkeyElements_getElement env (mel_cH e) (u64 level) (u64 hk) w =
+      if level ≥ cfg.L then some (none, 0, some .hashLevel)
+      else match HkeyElems.findEq e.hkeys hk 0 e.hkeys.length (e.hkeys.length + 1) with
+        | none => some (none, 0, some .keyNotFound)
+        | some i => (e.elems[i]?).map (fun el => (some el, Int.ofNat i, none)) := by
+  exact hkeyElements_getElement_eq_model_on o cfg k v env hE.toOn e hok level hk hl hL hhk w
+
+/-- (relativised environment `EnvAOn`; the guard `Pg` holds for the elements of the table) `hkeyElements.Get` = `HkeyElems.get` (for every well-formed digest table; never panics) -/
+theorem hkeyElements_Get_eq_model_on {Pg Ps Pr : MElemF α → Nat → Ctx → Prop}
+    (hE : EnvAOn o cfg k v env Pg Ps Pr) (e : HkeyElems α) (hok : mel_HOk e) (level : Nat) (c : Ctx)
+    (hl : level < 2^64) (hL : cfg.L < 2^64) (hd : k.dig level < 2^64)
+    (hPg : ∀ (i : Nat) (el : MElemF α), e.elems[i]? = some el → Pg el level c) :
     hkeyElements_Get env (mel_cH e) c (u64 level) (u64 (k.dig level)) (.key k) =
       some (mel_rGet c (HkeyElems.get o cfg e level k)) := by
   unfold hkeyElements_Get
-  rw [hkeyElements_getElement_eq_model o cfg k v env hE e hok level (k.dig level) hl hL hd]
+  rw [hkeyElements_getElement_eq_model_on o cfg k v env hE e hok level (k.dig level) hl hL hd]
   unfold HkeyElems.get
   by_cases cl : level ≥ cfg.L
   · simp only [cl, if_true]
@@ -101,7 +115,15 @@ theorem hkeyElements_Get_eq_model (hE : EnvA o cfg k v env) (e : HkeyElems α) (
         rw [hok.len]; exact (List.getElem?_eq_some_iff.mp hx).1
       have hel : e.elems[x]? = some e.elems[x] := List.getElem?_eq_getElem hxl
       simp only [hel, Option.map_some, Option.isNone_none, Bool.not_true, Bool.false_eq_true, if_false]
-      rw [hE.get _ c level _ hl]
+      rw [hE.get _ c level _ hl (hPg _ _ hel)]
+
+/-- `hkeyElements.Get` = `HkeyElems.get` (for every well-formed digest table; never panics) -/
+theorem hkeyElements_Get_eq_model (hE : EnvA o cfg k v env) (e : HkeyElems α) (hok : mel_HOk e) (level : Nat) (c : Ctx)
+    (hl : level < 2^64) (hL : cfg.L < 2^64) (hd : k.dig level < 2^64) :
+    hkeyElements_Get env (mel_cH e) c (u64 level) (u64 (k.dig level)) (.key k) =
+      some (mel_rGet c (HkeyElems.get o cfg e level k)) := by
+  exact hkeyElements_Get_eq_model_on o cfg k v env hE.toOn e hok level c hl hL hd (fun _ _ _ => trivial)
+
 /-- `hkeyElements.getElementAndNextKey` finds the same element as `hkeyElements.Get`: if `element.getElementAndNextKey` returns
     the key, the value and the error of `element.Get` (`hnk`) and `firstKeyInElement` does not fail (`hfk`; its error would
     replace the result), then it never panics and its key, value and error are those of `HkeyElems.get`.
